@@ -412,7 +412,8 @@ pub fn chunked_body(body: &[u8], sizes: &[usize], ext: bool, trailer: bool) -> V
         let want = if sizes.is_empty() { body.len() } else { sizes[i % sizes.len()].max(1) };
         i += 1;
         let n = want.min(body.len() - pos);
-        if ext && i % 2 == 0 {
+        // servers cap the total size of chunk extensions: use them sparingly
+        if ext && i % 2 == 0 && i < 40 {
             out.extend_from_slice(format!("{:x};ext=1\r\n", n).as_bytes());
         } else if i % 3 == 0 {
             out.extend_from_slice(format!("{:X}\r\n", n).as_bytes());
